@@ -12,3 +12,6 @@ def collect(P):
     P.string("SNIPPET_DEFAULT_PREFIX", "src/snippet/mod.rs", r'^const DEFAULT_SNIPPET_PREFIX: &str = "([^"]*)";')
     P.string("SNIPPET_DEFAULT_POSTFIX", "src/snippet/mod.rs", r'^const DEFAULT_SNIPPET_POSTFIX: &str = "([^"]*)";')
     P.int_const("TEXT_FACET_SEP_BYTE", "src/schema/facet.rs", r"^pub const FACET_SEP_BYTE: u8 = ([^;]+);", "u8")
+    # FragmentCandidate::try_add_token: the fragment end is the furthest token end (fix of F21), not the last token's end
+    P.flag("SNIPPET_STOP_IS_MAX", "src/snippet/mod.rs",
+           r"fn try_add_token\(&mut self, token: &Token, terms: &BTreeMap<String, Score>\) \{\s*(?://[^\n]*\n\s*)*self\.stop_offset = self\.stop_offset\.max\(token\.offset_to\);")
